@@ -240,16 +240,18 @@ def lru_list(draw, v, known, min_size=0, max_size=5):
     return out
 
 
-def maybe_text(draw, lru):
-    """about 5 % of LRUs are handed to the API as str when they are valid UTF-8 (the ledger keeps the bytes)"""
-    if draw(st.integers(0, 19)) == 0:
+def maybe_text(draw, lru, one_in=20):
+    """about 5 % of LRUs are handed to the API as str (decoded with the index's own encoding, so that the library encodes
+    them back to the same bytes; the ledger keeps the bytes)"""
+    from .codec import ENCODING
+    if draw(st.integers(0, one_in - 1)) == 0:
         try:
-            return lru.decode("utf-8")
-        except UnicodeDecodeError:
-            return lru
+            t = lru.decode(ENCODING[0])
+            if t.encode(ENCODING[0]) == lru:
+                return t
+        except UnicodeError:
+            pass
     return lru
-
-
 @st.composite
 def lru_under(draw, v, base):
     """a URL LRU beneath `base` (a rule anchor or a webentity prefix): base + hosts (if base still ends in the host part)
